@@ -9,7 +9,7 @@ PATCH=$(readlink -f "$1"); shift
 D=$(mktemp -d ${TMPDIR:-/var/tmp}/fsmut.XXXXXX)
 trap 'rm -rf "$D"' EXIT
 rsync -a --exclude .git /repo/ "$D/"
-if ! (cd "$D" && patch -p1 -s --no-backup-if-mismatch < "$PATCH"); then echo "PATCH-DOES-NOT-APPLY"; exit 2; fi
+if ! (cd "$D" && patch -p1 -s -E --no-backup-if-mismatch < "$PATCH"); then echo "PATCH-DOES-NOT-APPLY"; exit 2; fi
 if ! (cd "$D" && go build -trimpath ./... >"$D/.build.log" 2>&1); then head -5 "$D/.build.log"; echo "BUILD-FAILED"; exit 2; fi
 det=3
 for p in "$@"; do
